@@ -450,6 +450,114 @@ theorem per_elem_fields (x : Ext) (cfg : Cfg) (env : Env) (pe : PE) (ifs : Str) 
     simp [fields, quotedElemFields, listElems, hifs, hv, hp.1, hp.2, hidx, h1, h2, h3, h4, h5, isAtStar, Idx.lit,
       sliceElems, perElemOps, addElemsQuoted_fields, bind, Except.bind, pure, Except.pure, Except.map]
 
+/-- `"${a[*]…}"`: the per-element operators are mapped over the elements, then joined. -/
+theorem per_elem_fields_star (x : Ext) (cfg : Cfg) (env : Env) (pe : PE) (ifs : Str) (l : List Str)
+    (hifs : ifsOf env = .ok ifs) (hp : Plain pe.name) (hv : env.get pe.name = Var.ofList l)
+    (hidx : pe.idx = .star) (h1 : pe.excl = false) (h2 : pe.length = false) (h3 : pe.slice = none)
+    (hop : PerElem x pe l) :
+    fields x cfg env pe true = (mapMExcept (scalarOp x pe) l).map (fun ys => ([ifsJoin ifs ys], env)) := by
+  rcases hop with ⟨r, h4⟩ | ⟨h4, op, arg, h5, hop⟩ | ⟨h4, h5⟩
+  · have hs : scalarOp x pe = replOne x.M r := funext (scalarOp_repl x pe r · hp h1 h2 h3 h4)
+    rw [hs]
+    simp [fields, quotedElemFields, listElems, hifs, hv, hp.1, hp.2, hidx, h1, h2, h3, h4, isAtStar, Idx.lit,
+      sliceElems, perElemOps, replaceElems_map, bind, Except.bind, pure, Except.pure]
+    cases mapMExcept (replOne x.M r) l <;> simp [Except.map, addElemsQuoted_fields, Sl.toList]
+  · rcases hop with hop | ⟨hop, hnp⟩
+    · have hs : scalarOp x pe = fun s => removePattern x.M s arg (op == .remSmallSuf || op == .remLargeSuf)
+          (op == .remSmallPre || op == .remSmallSuf) :=
+        funext (scalarOp_remove x pe op arg · hp h1 h2 h3 h4 h5 hop)
+      rw [hs]
+      simp [fields, quotedElemFields, listElems, hifs, hv, hp.1, hp.2, hidx, h1, h2, h3, h4, h5, hop, isAtStar,
+        Idx.lit, sliceElems, perElemOps, removePatternElems, bind, Except.bind, pure, Except.pure, Sl.toList]
+      cases mapMExcept (fun s => removePattern x.M s arg (op == .remSmallSuf || op == .remLargeSuf)
+          (op == .remSmallPre || op == .remSmallSuf)) l <;> simp [Except.map, addElemsQuoted_fields, Sl.toList]
+    · have hs : scalarOp x pe = caseOne x.M op arg := funext (scalarOp_case x pe op arg · hp h1 h2 h3 h4 h5 hop)
+      have hnr : isRemove op = false := by cases op <;> simp [isCase] at hop <;> rfl
+      rw [hs]
+      simp [fields, quotedElemFields, listElems, hifs, hv, hp.1, hp.2, hidx, h1, h2, h3, h4, h5, hop, hnr, isAtStar,
+        Idx.lit, sliceElems, perElemOps, caseConvElems_map x.M op arg l hnp, bind, Except.bind, pure, Except.pure]
+      cases mapMExcept (caseOne x.M op arg) l <;> simp [Except.map, addElemsQuoted_fields, Sl.toList]
+  · have hs : scalarOp x pe = fun s => .ok s := funext (scalarOp_plain x pe · hp h1 h2 h3 h4 h5)
+    rw [hs, mapMExcept_ok (fun s => s)]
+    simp [fields, quotedElemFields, listElems, hifs, hv, hp.1, hp.2, hidx, h1, h2, h3, h4, h5, isAtStar, Idx.lit,
+      sliceElems, perElemOps, addElemsQuoted_fields, bind, Except.bind, pure, Except.pure, Except.map, Sl.toList]
+
+/-- `"${m[@]…}"` of an associative array: the operators are mapped over the sorted values. -/
+theorem per_elem_fields_assoc (x : Ext) (cfg : Cfg) (env : Env) (pe : PE) (ifs : Str) (m : List (Str × Str))
+    (hifs : ifsOf env = .ok ifs) (hp : Plain pe.name) (hv : env.get pe.name = Var.ofMap m)
+    (hidx : pe.idx = .at) (h1 : pe.excl = false) (h2 : pe.length = false) (h3 : pe.slice = none)
+    (hop : PerElem x pe (sortStrs (m.map (·.2)))) :
+    fields x cfg env pe true = (mapMExcept (scalarOp x pe) (sortStrs (m.map (·.2)))).map (fun ys => (ys, env)) := by
+  rcases hop with ⟨r, h4⟩ | ⟨h4, op, arg, h5, hop⟩ | ⟨h4, h5⟩
+  · have hs : scalarOp x pe = replOne x.M r := funext (scalarOp_repl x pe r · hp h1 h2 h3 h4)
+    rw [hs]
+    simp [fields, quotedElemFields, listElems, hifs, hv, hp.1, hp.2, hidx, h1, h2, h3, h4, isAtStar, Idx.lit,
+      sliceElems, perElemOps, replaceElems_map, bind, Except.bind, pure, Except.pure]
+    cases mapMExcept (replOne x.M r) (sortStrs (m.map (·.2))) <;> simp [Except.map, addElemsQuoted_fields, Sl.toList]
+  · rcases hop with hop | ⟨hop, hnp⟩
+    · have hs : scalarOp x pe = fun s => removePattern x.M s arg (op == .remSmallSuf || op == .remLargeSuf)
+          (op == .remSmallPre || op == .remSmallSuf) :=
+        funext (scalarOp_remove x pe op arg · hp h1 h2 h3 h4 h5 hop)
+      rw [hs]
+      simp [fields, quotedElemFields, listElems, hifs, hv, hp.1, hp.2, hidx, h1, h2, h3, h4, h5, hop, isAtStar,
+        Idx.lit, sliceElems, perElemOps, removePatternElems, bind, Except.bind, pure, Except.pure, Sl.toList]
+      cases mapMExcept (fun s => removePattern x.M s arg (op == .remSmallSuf || op == .remLargeSuf)
+          (op == .remSmallPre || op == .remSmallSuf)) (sortStrs (m.map (·.2))) <;> simp [Except.map, addElemsQuoted_fields, Sl.toList]
+    · have hs : scalarOp x pe = caseOne x.M op arg := funext (scalarOp_case x pe op arg · hp h1 h2 h3 h4 h5 hop)
+      have hnr : isRemove op = false := by cases op <;> simp [isCase] at hop <;> rfl
+      rw [hs]
+      simp [fields, quotedElemFields, listElems, hifs, hv, hp.1, hp.2, hidx, h1, h2, h3, h4, h5, hop, hnr, isAtStar,
+        Idx.lit, sliceElems, perElemOps, caseConvElems_map x.M op arg (sortStrs (m.map (·.2))) hnp, bind, Except.bind, pure, Except.pure]
+      cases mapMExcept (caseOne x.M op arg) (sortStrs (m.map (·.2))) <;> simp [Except.map, addElemsQuoted_fields, Sl.toList]
+  · have hs : scalarOp x pe = fun s => .ok s := funext (scalarOp_plain x pe · hp h1 h2 h3 h4 h5)
+    rw [hs, mapMExcept_ok (fun s => s)]
+    simp [fields, quotedElemFields, listElems, hifs, hv, hp.1, hp.2, hidx, h1, h2, h3, h4, h5, isAtStar, Idx.lit,
+      sliceElems, perElemOps, addElemsQuoted_fields, bind, Except.bind, pure, Except.pure, Except.map, Sl.toList]
+
+
+
+/-- The expansion `pe` read as one about the ordinary variable `x` (for `$@` / `$*`, whose
+    elements have no name of their own). -/
+def asX (pe : PE) : PE := { pe with name := xN, idx := .none }
+
+theorem plain_xN : Plain xN := by decide
+
+theorem perElem_asX (x : Ext) (pe : PE) (l : List Str) (h : PerElem x pe l) : PerElem x (asX pe) l := h
+
+/-- `"$@"` with a per-element operator: mapped over the positional parameters, one field each. -/
+theorem per_elem_fields_at_positional (x : Ext) (cfg : Cfg) (env : Env) (pe : PE) (ifs : Str) (l : List Str)
+    (hifs : ifsOf env = .ok ifs) (hn : pe.name = ['@']) (hv : env.get ['@'] = Var.ofList l)
+    (h1 : pe.excl = false) (h2 : pe.length = false) (h3 : pe.slice = none)
+    (hop : PerElem x pe l) :
+    fields x cfg env pe true = (mapMExcept (scalarOp x (asX pe)) l).map (fun ys => (ys, env)) := by
+  have hp := plain_xN
+  rcases hop with ⟨r, h4⟩ | ⟨h4, op, arg, h5, hop⟩ | ⟨h4, h5⟩
+  · have hs : scalarOp x (asX pe) = replOne x.M r := funext (scalarOp_repl x (asX pe) r · hp h1 h2 h3 h4)
+    rw [hs]
+    simp [fields, quotedElemFields, listElems, hifs, hv, hn, h1, h2, h3, h4, isAtStar, Idx.lit,
+      sliceElems, perElemOps, replaceElems_map, bind, Except.bind, pure, Except.pure]
+    cases mapMExcept (replOne x.M r) l <;> simp [Except.map, addElemsQuoted_fields, Sl.toList]
+  · rcases hop with hop | ⟨hop, hnp⟩
+    · have hs : scalarOp x (asX pe) = fun s => removePattern x.M s arg (op == .remSmallSuf || op == .remLargeSuf)
+          (op == .remSmallPre || op == .remSmallSuf) :=
+        funext (scalarOp_remove x (asX pe) op arg · hp h1 h2 h3 h4 h5 hop)
+      rw [hs]
+      simp [fields, quotedElemFields, listElems, hifs, hv, hn, h1, h2, h3, h4, h5, hop, isAtStar,
+        Idx.lit, sliceElems, perElemOps, removePatternElems, bind, Except.bind, pure, Except.pure, Sl.toList]
+      cases mapMExcept (fun s => removePattern x.M s arg (op == .remSmallSuf || op == .remLargeSuf)
+          (op == .remSmallPre || op == .remSmallSuf)) l <;> simp [Except.map, addElemsQuoted_fields, Sl.toList]
+    · have hs : scalarOp x (asX pe) = caseOne x.M op arg := funext (scalarOp_case x (asX pe) op arg · hp h1 h2 h3 h4 h5 hop)
+      have hnr : isRemove op = false := by cases op <;> simp [isCase] at hop <;> rfl
+      rw [hs]
+      simp [fields, quotedElemFields, listElems, hifs, hv, hn, h1, h2, h3, h4, h5, hop, hnr, isAtStar,
+        Idx.lit, sliceElems, perElemOps, caseConvElems_map x.M op arg l hnp, bind, Except.bind, pure, Except.pure]
+      cases mapMExcept (caseOne x.M op arg) l <;> simp [Except.map, addElemsQuoted_fields, Sl.toList]
+  · have hs : scalarOp x (asX pe) = fun s => .ok s := funext (scalarOp_plain x (asX pe) · hp h1 h2 h3 h4 h5)
+    rw [hs, mapMExcept_ok (fun s => s)]
+    simp [fields, quotedElemFields, listElems, hifs, hv, hn, h1, h2, h3, h4, h5, isAtStar, Idx.lit,
+      sliceElems, perElemOps, addElemsQuoted_fields, bind, Except.bind, pure, Except.pure, Except.map, Sl.toList]
+
+
 /-! ## searching index ranges -/
 
 theorem find_range'_some (p : Nat → Bool) (lo n k : Nat) (h : (List.range' lo n).find? p = some k) :
